@@ -70,7 +70,7 @@ def run_cvc5(smt2: str, timeout_ms: int) -> str:
 def discharge(ob, input_syms, timeout_ms):
     t0 = time.time()
     s = z3.Solver()
-    s.set("timeout", timeout_ms if ob.expect == "valid" else min(timeout_ms, 3000))
+    s.set("timeout", timeout_ms if ob.expect == "valid" else min(timeout_ms, 1000))
     for h in ob.hyps:
         s.add(h)
     s.add(z3.Not(ob.goal))
@@ -95,15 +95,10 @@ def discharge(ob, input_syms, timeout_ms):
             res["solver"] = "cvc5"
         else:
             # candidate counter-model ignoring quantified hypotheses (to be replayed natively before it counts)
-            s2 = z3.Solver()
-            s2.set("timeout", 3000)
-            for h in ob.hyps:
-                if not z3.is_quantifier(h):
-                    s2.add(h)
-            s2.add(z3.Not(ob.goal))
+            from .concrete import candidate_model
             cand = None
-            if s2.check() == z3.sat:
-                m = s2.model()
+            m = candidate_model(ob.hyps, ob.goal, input_syms)
+            if m is not None:
                 cand = {k: model_value(m, v) for k, v in input_syms.items() if v.z is not None}
             res["status"] = "unknown"
             res["detail"] = f"z3: {r} ({s.reason_unknown()}); cvc5: {r2}"
@@ -146,8 +141,66 @@ def prove_one(task):
         if bad:
             out["drift"] = f"spec names loop #{bad} but the function has {n_loops} loops"
             return out
+        from .concrete import replay, candidate_models
+        n_replays = 0
+        confirmed = None
+        searched = False
         for ob in obls:
-            out["obligations"].append(discharge(ob, ex.input_syms, sp.timeout_ms or timeout_ms))
+            r = discharge(ob, ex.input_syms, sp.timeout_ms or timeout_ms)
+            if r["status"] in ("failed", "unknown") and ob.expect == "valid":
+                if confirmed is not None:
+                    # one replayed input per function is enough evidence; attach it
+                    r["replay"] = confirmed[1]
+                    r["counterexample"] = confirmed[0]
+                    r["replayed"] = True
+                    r["status"] = "failed"
+                    r["detail"] = (r.get("detail") or "") + " | same function already has a replayed failing input: " + confirmed[1]["detail"]
+                elif n_replays < 80:
+                    tried = []
+                    first = r.get("counterexample")
+                    gen = candidate_models(ob.hyps, ob.goal, ex.input_syms)
+                    while n_replays < 80:
+                        if first is not None:
+                            cand, first = first, None
+                        else:
+                            m = next(gen, None)
+                            if m is None:
+                                break
+                            cand = {k: model_value(m, v) for k, v in ex.input_syms.items() if v.z is not None}
+                        n_replays += 1
+                        try:
+                            rp = replay(key, cand, variant)
+                        except Exception as e:
+                            rp = {"confirmed": False, "detail": f"replay error: {e!r}"}
+                        tried.append(rp.get("detail", "")[:80])
+                        if rp.get("confirmed"):
+                            confirmed = (cand, rp)
+                            r["replayed"] = True
+                            r["status"] = "failed"
+                            r["counterexample"] = cand
+                            r["replay"] = rp
+                            r["detail"] = (r.get("detail") or "") + " | replayed on the real code: " + rp["detail"]
+                            break
+                    if not r.get("replayed") and not searched:
+                        searched = True
+                        from .concrete import random_search
+                        try:
+                            found = random_search(key, variant)
+                        except Exception as e:
+                            found = None
+                            tried.append(f"random search error {e!r}")
+                        if found:
+                            cand, rp = found
+                            confirmed = (cand, rp)
+                            r["replayed"] = True
+                            r["status"] = "failed"
+                            r["counterexample"] = cand
+                            r["replay"] = rp
+                            r["detail"] = (r.get("detail") or "") + " | found by bounded search around the function, replayed on the real code: " + rp["detail"]
+                    r["replays_tried"] = len(tried)
+                    if not r.get("replayed"):
+                        r["replay_notes"] = tried[:5]
+            out["obligations"].append(r)
         out["builtins"] = sorted(B.USED_BUILTINS)
     except Exception:
         out["error"] = traceback.format_exc()[-2000:]
